@@ -23,48 +23,103 @@ INF = float("inf")
 
 
 def py_plain(cfg):
-    """plain up to timeouts (the model's plainT); timeouts must leave slack, see py_slack"""
-    for i, j in enumerate(cfg["jobs"]):
+    """the trees of the closed form (the model's plainF): no window, no forever nested scheduler, finite
+    handlers, atomic jobs end by themselves unless they are forever; nobody requires a forever job and a
+    scheduler that has jobs has a non-forever one; timeouts must leave slack and forever jobs must not tie
+    with the end of the main loop of their scheduler (py_slack, py_no_tie)"""
+    jobs = cfg["jobs"]
+    for i, j in enumerate(jobs):
+        if any(jobs[r]["forever"] for r in j["reqs"]):
+            return False
         if j["sched"]:
             if j.get("window") or (i != 0 and j["forever"]):
                 return False
-        elif j["dur"] is None or j["forever"] or j["sdur"] is None:
+            ks = [k for k in range(1, len(jobs)) if jobs[k]["parent"] == i]
+            if ks and all(jobs[k]["forever"] for k in ks):
+                return False
+        elif (j["dur"] is None and not j["forever"]) or j["sdur"] is None:
             return False
-    return py_slack(cfg)
+    return py_slack(cfg) and py_no_tie(cfg)
+
+
+def has_forever(cfg):
+    return any(j["forever"] for j in cfg["jobs"][1:])
+
+
+def is_cut(cfg, S, M, x):
+    """forever atomic job that does not end by itself strictly before the main loop of its scheduler"""
+    j = cfg["jobs"][x]
+    return (not j["sched"]) and j["forever"] and not (j["dur"] is not None and S[x] + j["dur"] < M[j["parent"]])
+
+
+def py_no_tie(cfg):
+    if not has_forever(cfg):
+        return True
+    S, E, M = py_schedule(cfg, with_M=True)
+    for x, j in enumerate(cfg["jobs"]):
+        if x and (not j["sched"]) and j["forever"]:
+            m = M[j["parent"]]
+            if not S[x] < m or (j["dur"] is not None and S[x] + j["dur"] == m):
+                return False
+    return True
 
 
 def slow_handlers(cfg):
     return any((not j["sched"]) and j["sdur"] for j in cfg["jobs"])
 
 
-def py_schedule(cfg):
+def py_schedule(cfg, with_M=False):
     """start and end instants of every job by direct recursion over the tree (written independently
-    of the model's iterative solver)"""
+    of the model): a job starts when its scheduler has begun and its requirements have ended; the
+    main loop of a scheduler ends (M) when its last non-forever job has; forever jobs still running
+    then are cancelled and end cdur later; then the shutdown phase"""
     jobs = cfg["jobs"]
     n = len(jobs)
     kids = {}
     for k in range(1, n):
         kids.setdefault(jobs[k]["parent"], []).append(k)
-    S, E = [None] * n, [None] * n
+    S, E, M = [None] * n, [None] * n, [None] * n
 
     def start(x):
         if S[x] is None:
             S[x] = 0 if x == 0 else max([start(jobs[x]["parent"])] + [end(r) for r in jobs[x]["reqs"]])
         return S[x]
 
+    def mainend(x):
+        if M[x] is None:
+            M[x] = max([start(x)] + [end(y) for y in kids.get(x, []) if not jobs[y]["forever"]])
+        return M[x]
+
     def end(x):
         if E[x] is None:
-            if jobs[x]["sched"]:
+            j = jobs[x]
+            start(x)
+            if j["sched"]:
+                m = mainend(x)
+                tidy = max([0] + [jobs[y]["cdur"] for y in kids.get(x, [])
+                                  if (not jobs[y]["sched"]) and jobs[y]["forever"]
+                                  and not (jobs[y]["dur"] is not None and start(y) + jobs[y]["dur"] < m)])
                 d = max([0] + [jobs[y]["sdur"] or 0 for y in kids.get(x, []) if not jobs[y]["sched"]])
-                if jobs[x].get("sdto") is not None:
-                    d = min(d, jobs[x]["sdto"])
-                E[x] = max([start(x)] + [end(y) for y in kids.get(x, [])]) + d
+                if j.get("sdto") is not None:
+                    d = min(d, j["sdto"])
+                E[x] = m + tidy + d
+            elif j["forever"]:
+                m = mainend(j["parent"])
+                if j["dur"] is not None and start(x) + j["dur"] < m:
+                    E[x] = start(x) + j["dur"]
+                else:
+                    E[x] = m + j["cdur"]
             else:
-                E[x] = start(x) + (jobs[x]["dur"] or 0)
+                E[x] = start(x) + (j["dur"] or 0)
         return E[x]
 
     for x in range(n):
         end(x)
+    for x in range(n):
+        if jobs[x]["sched"]:
+            mainend(x)
+    if with_M:
+        return S, E, M
     return S, E
 
 
@@ -72,7 +127,7 @@ def py_slack(cfg):
     """every timed scheduler is scheduled to end strictly before its timeout expires"""
     if not any(j["sched"] and j.get("timeout") is not None for j in cfg["jobs"]):
         return True
-    if any((not j["sched"]) and j["dur"] is None for j in cfg["jobs"]):
+    if any((not j["sched"]) and j["dur"] is None and not j["forever"] for j in cfg["jobs"]):
         return False
     S, E = py_schedule(cfg)
     return all(main_end(cfg, S, E, i) < S[i] + j["timeout"] for i, j in enumerate(cfg["jobs"])
@@ -80,8 +135,29 @@ def py_slack(cfg):
 
 
 def main_end(cfg, S, E, n):
-    """instant at which the main loop of scheduler n ends (its shutdown phase begins)"""
-    return max([S[n]] + [E[y] for y in range(1, len(cfg["jobs"])) if cfg["jobs"][y]["parent"] == n])
+    """instant at which the main loop of scheduler n ends (its last non-forever job has ended)"""
+    return max([S[n]] + [E[y] for y in range(1, len(cfg["jobs"]))
+                         if cfg["jobs"][y]["parent"] == n and not cfg["jobs"][y]["forever"]])
+
+
+def add_forever_jobs(cfg, rnd):
+    """append one to three forever atomic jobs (never-ending, or lasting 0-4, cancellation handler 0-2)
+    to random non-empty schedulers of a plain tree, each possibly requiring a non-forever sibling"""
+    from . import rgen
+    jobs = cfg["jobs"]
+    scheds = [i for i, j in enumerate(jobs) if j["sched"] and any(k["parent"] == i for k in jobs[1:])]
+    for _ in range(rnd.randint(1, 3)):
+        if not scheds:
+            return cfg
+        p = rnd.choice(scheds)
+        sib = [k for k in range(1, len(jobs)) if jobs[k]["parent"] == p and not jobs[k]["forever"]]
+        j = rgen.J(p, rnd, forever=True, dur=rnd.choice([None, None, 0, 1, 2, 3, 4]), cdur=rnd.choice([0, 0, 1, 2]),
+                   sdur=rnd.choice([0, 0, 1]), crit=rnd.random() < 0.3, reqs=[rnd.choice(sib)] if sib and rnd.random() < 0.4 else [])
+        jobs.append(j)
+    if "insert_order" in cfg:
+        cfg["insert_order"] = list(range(1, len(jobs)))
+        rnd.shuffle(cfg["insert_order"])
+    return cfg
 
 
 def add_slack_timeouts(cfg, rnd):
@@ -177,6 +253,9 @@ def compare(cfg, tl, S, E, names=None):
     """differences between what the implementation did (tl) and the schedule (S, E: indexed by the
     ids of cfg), strictly before the first instant at which a critical job raises"""
     jobs = cfg["jobs"]
+    M = None
+    if has_forever(cfg):
+        _, _, M = py_schedule(cfg, with_M=True)
     tstar = min([E[x] for x, j in enumerate(jobs) if not j["sched"] and j["crit"] and j["out"] == "exc"] or [INF])
     diffs = []
     for x, j in enumerate(jobs):
@@ -191,7 +270,8 @@ def compare(cfg, tl, S, E, names=None):
             diffs.append({"job": name, "started_at": st, "schedule_says": S[x]})
         elif (st is None or st >= tstar) and S[x] < tstar:
             diffs.append({"job": name, "started_at": st, "schedule_says": S[x], "first_critical_failure_at": tstar})
-        if en is not None and en < tstar and (en != E[x] or how != j["out"]):
+        want = "cancelled" if (M is not None and is_cut(cfg, S, M, x)) else j["out"]
+        if en is not None and en < tstar and (en != E[x] or how != want):
             diffs.append({"job": name, "ended_at": en, "how": how, "schedule_says": E[x], "configured_outcome": j["out"]})
         elif (en is None or en >= tstar) and E[x] < tstar:
             diffs.append({"job": name, "ended_at": en, "schedule_says": E[x], "first_critical_failure_at": tstar})
@@ -200,10 +280,25 @@ def compare(cfg, tl, S, E, names=None):
 
 def model_schedules(cfgs):
     """op 104 for each configuration -> list of None (not plain / not decodable) or (S, E)"""
-    outs = core.run_driver([[106 if slow_handlers(c) else 104] + enc_cfg(c) for c in cfgs])
+    def query(c):
+        if has_forever(c):
+            S, E = py_schedule(c)
+            return [107] + enc_cfg(c) + enc_nats(S) + enc_nats(E)
+        return [106 if slow_handlers(c) else 104] + enc_cfg(c)
+    outs = core.run_driver([query(c) for c in cfgs])
     res = []
     for c, o in zip(cfgs, outs):
         n = len(c["jobs"])
+        if has_forever(c):
+            # op 107: wf, plainF, is_scheduleFb, no_tieFb, slackFb on the tables computed here
+            if not o or o[0] != 1 or len(o) != 6:
+                res.append(("undecodable", None, None))
+            elif o[1:6] != [1, 1, 1, 1, 1]:
+                res.append(("model-refuses:wf,plainF,equations,no-tie,slack=%s" % o[1:6], None, None))
+            else:
+                S, E = py_schedule(c)
+                res.append(("ok", S, E))
+            continue
         if slow_handlers(c):
             # op 106: wf, plainH, is_scheduleHb, slack of the main loops, S, E
             if not o or o[0] != 1 or len(o) != 5 + 2 * n:
@@ -278,9 +373,9 @@ def evaluate_plain(cases, pool_map):
                                                 "instants its requirements determine (each job starts when its last "
                                                 "requirement ends, its scheduler having begun)", "differences": d[:6]})
             continue
-        if slow_handlers(cfg):
-            # the flattened graph legitimately differs (known finding F10): only the tree itself is
-            # compared with the schedule (theorem runs_on_scheduleH)
+        if slow_handlers(cfg) or has_forever(cfg):
+            # the flattened graph legitimately differs (known finding F10) / the sentence excludes forever
+            # jobs: only the tree itself is compared with the schedule (runs_on_scheduleH / runs_on_scheduleF)
             continue
         if c2 is None:
             problems[i] = ("mismatch", {"what": "harness could not order the flattened graph"})
@@ -330,7 +425,9 @@ SCHED_RULE = (" Closed-form schedule: a quarter as many additional plain trees (
               "handlers of zero duration; nesting up to depth 3, raising and critical jobs allowed; half of them with "
               "timeouts on random schedulers that their schedule does not reach, a third with shutdown handlers of 1-3 time "
               "units on random jobs: schedule with shutdown phases, solveH / is_scheduleHb, driver op 106, theorem "
-              "runs_on_scheduleH, no flattened-graph comparison for those) are generated; for each, and for every such "
+              "runs_on_scheduleH, no flattened-graph comparison for those; a third with forever jobs added: tables computed "
+              "by the harness and checked by is_scheduleFb / no_tieFb / slackFb, driver op 107, theorem "
+              "runs_on_scheduleF) are generated; for each, and for every such "
               "tree of the main batch, the extracted model computes the start and end instant of every job (solve, accepted "
               "only if is_scheduleb and slackb hold: driver op 104; also compared with a direct recursion written in the "
               "harness), the implementation is run and every body entry/exit strictly before the first instant at which a "
@@ -355,9 +452,12 @@ class WithSchedule:
                     for j in cfg["jobs"]:
                         if not j["sched"] and rnd.random() < 0.5:
                             j["sdur"] = rnd.randint(1, 3)
+                if rnd.random() < 0.3:
+                    add_forever_jobs(cfg, rnd)
                 if rnd.random() < 0.5:
                     add_slack_timeouts(cfg, rnd)
-                out.append(cfg)
+                if py_plain(cfg):
+                    out.append(cfg)
         return out
 
     def evaluate(self, cases):
@@ -365,7 +465,9 @@ class WithSchedule:
         problems, k = evaluate_plain(cases, pool_map)
         for i, c in enumerate(cases):
             if py_plain(c):
-                results[i]["tags"]["plain"] = 1
+                results[i]["tags"]["plain"] = ("forever-jobs" if has_forever(c) else "slow-handlers" if slow_handlers(c)
+                                               else "timeouts" if any(j["sched"] and j.get("timeout") is not None for j in c["jobs"])
+                                               else "plain")
                 results[i]["traces"] = results[i].get("traces", 0) + 2
         for i, (kind, detail) in problems.items():
             cur = results[i]["status"]
